@@ -22,6 +22,7 @@ enum Val {
     W32(String),   // a 32-bit word: Lean term of type BitVec 32
     SN(String),    // a u64 parameter used as a count / size: Lean variable of type Nat (its word is `BitVec.ofNat 64 n`)
     SE(String),    // a u64 value computed from such a parameter: Lean term of type Nat (already reduced mod 2^64)
+    PtrMut(String), // `arr.as_mut_ptr()`: the environment entry a store intrinsic writes
     Ptr(Vec<Val>), // `[..].as_ptr()`: the pointed-to array (argument of a load intrinsic)
     Unit,
 }
@@ -360,6 +361,20 @@ impl<'a> Ex<'a> {
             ("vdupq_n_u8", "Neon.vdupq_n_u8", "B"), ("vdupq_n_u64", "Neon.vdupq_n_u64", "Q"), ("vsetq_lane_u32", "Neon.vsetq_lane_u32", "DRI"),
             ("vextq_u8", "Neon.vextq_u8", "RRI"), ("vshlq_u32", "Neon.vshlq_u32", "RR"),
         ];
+        if name == "vst1q_u64" && args.len() == 2 {
+            // store of the two 64-bit lanes through a pointer to a local `[u64; 2]`
+            let v = self.deref_val(args[1].clone())?;
+            let w = self.word(&v)?;
+            let Val::PtrMut(k) = &args[0] else { return Err("vst1q_u64 destination".into()) };
+            match self.env.get_mut(k) {
+                Some(Val::Arr(a)) if a.len() == 2 => {
+                    a[0] = Val::W(format!("(Neon.vst1q_u64 {w}).1"));
+                    a[1] = Val::W(format!("(Neon.vst1q_u64 {w}).2"));
+                }
+                _ => return Err("vst1q_u64 destination is not a local [u64; 2]".into()),
+            }
+            return Ok(Val::Unit);
+        }
         if name.starts_with("vreinterpretq_") && args.len() == 1 {
             return self.deref_val(args.into_iter().next().unwrap());   // a cast between views of the same 128 bits
         }
@@ -413,6 +428,14 @@ impl<'a> Ex<'a> {
             Expr::Field(f) if matches!(f.member, syn::Member::Unnamed(_)) && !matches!(&*f.base, Expr::Path(_) | Expr::Field(_) | Expr::Unary(_) | Expr::Paren(_)) => {
                 let v = self.eval(&f.base)?;
                 self.deref_val(v)
+            }
+            Expr::Index(ix) if matches!(&*ix.expr, Expr::MethodCall(_) | Expr::Call(_)) => {
+                let base = self.eval(&ix.expr)?;
+                let Val::N(i) = self.eval(&ix.index)? else { return Err("index".into()) };
+                match base {
+                    Val::Arr(a) if (i as usize) < a.len() => Ok(a[i as usize].clone()),
+                    _ => Err("index into a temporary that is not an array".into()),
+                }
             }
             Expr::Field(_) | Expr::Index(_) => {
                 let (k, idx) = self.place_key(e)?;
@@ -496,6 +519,13 @@ impl<'a> Ex<'a> {
                 let mut args = Vec::new();
                 for a in &m.args {
                     args.push(self.eval(a)?);
+                }
+                if name == "as_mut_ptr" && args.is_empty() {
+                    let (k, idx) = self.place_key(&m.receiver)?;
+                    if idx.is_some() {
+                        return Err("as_mut_ptr of an element".into());
+                    }
+                    return Ok(Val::PtrMut(k));
                 }
                 if name == "as_ptr" && args.is_empty() {
                     let v = self.eval(&m.receiver)?;
@@ -916,6 +946,38 @@ fn main() {
             let t = format!("theorem modularReduction_eq (x init : {regty}) : modularReduction x init = HH.{model}.modularReduction x init := rfl\n");
             Ok((d, t))
         })());
+        if untyped {
+            for (fname, lean, ty, k) in [("finalize64", "out64", "BitVec 64", 4), ("finalize128", "out128", "BitVec 64 × BitVec 64", 6), ("finalize256", "out256", "BitVec 64 × BitVec 64 × BitVec 64 × BitVec 64", 10)] {
+                emit(fname, (|| {
+                    let f = fns.get(fname).ok_or("missing")?;
+                    // the statements after the remainder test and the round loop
+                    let mut idx = 0;
+                    for (i, s) in f.block.stmts.iter().enumerate() {
+                        if matches!(s, Stmt::Expr(Expr::ForLoop(_), _)) || matches!(s, Stmt::Expr(Expr::If(_), _)) {
+                            idx = i + 1;
+                        }
+                    }
+                    let tail = syn::Block { brace_token: f.block.brace_token, stmts: f.block.stmts[idx..].to_vec() };
+                    let mut ex = Ex::new(&fns, &wrap, &traits, wrapper, avx);
+                    ex.free = free.clone();
+                    ex.untyped_lets = untyped;
+                    for fl in fields { ex.env.insert(format!("self.{fl}"), Val::W(format!("s.{fl}"))); }
+                    let r = ex.block(&tail)?;
+                    let r = ex.deref_val(r)?;
+                    let body = match &r {
+                        Val::W(w) => w.clone(),
+                        Val::Arr(a) => {
+                            let ws: Vec<String> = a.iter().map(|x| { let x = ex.deref_val(x.clone())?; ex.word(&x) }).collect::<R<_>>()?;
+                            format!("({})", ws.join(", "))
+                        }
+                        o => return Err(format!("result shape {:?}", o)),
+                    };
+                    let d = format!("def {lean} (s : HH.{model}.Regs) : {ty} :=\n{}  {body}\n", ex.lets_text());
+                    let t = format!("/-- `{fname}` is the shared prologue (tied to the source by HH/Generated/Skeleton.lean) followed by the source's output expression -/\ntheorem {fname}_shape (x : HH.{model}.State) : HH.{model}.{fname} x = {lean} (HH.{model}.finalizeCommon {k} x) := rfl\n");
+                    Ok((d, t))
+                })());
+            }
+        }
         if avx {
             emit("permute", (|| {
                 let f = fns.get("permute").ok_or("missing")?;
